@@ -443,16 +443,17 @@ def Dx9Header.alphaMode (x : Dx9Header) : AlphaMode :=
 /-- `caps2.contains(CUBE_MAP_ALL_FACES)` (bits 10..15 all set) -/
 def hasAllFaces (caps2 : Nat) : Bool := cubeFacesOfCaps2 caps2 == 63
 
+/-- the format part of `Dx9Header::to_dx10` -/
+def Dx9PixelFormat.toDxgi? : Dx9PixelFormat → Option Nat
+  | .fourCC c =>
+    if c = FOURCC_DXT2 then some DXGI_BC2_UNORM
+    else if c = FOURCC_DXT4 then some DXGI_BC3_UNORM
+    else fourCCToDxgi c
+  | .mask m => maskedToDxgi m
+
 /-- `Dx9Header::to_dx10` -/
 def Dx9Header.toDx10 (x : Dx9Header) : Option Dx10Header :=
-  let dxgi? : Option Nat :=
-    match x.pixelFormat with
-    | .fourCC c =>
-      if c = FOURCC_DXT2 then some DXGI_BC2_UNORM
-      else if c = FOURCC_DXT4 then some DXGI_BC3_UNORM
-      else fourCCToDxgi c
-    | .mask m => maskedToDxgi m
-  match dxgi? with
+  match x.pixelFormat.toDxgi? with
   | none => none
   | some dxgi =>
     if bitSet x.caps2 CAPS2_CUBE_MAP && !hasAllFaces x.caps2 then none else
